@@ -9,12 +9,13 @@ mod refmetric;
 mod c08;
 mod c13;
 mod c16;
+mod c18;
 
 use common::{Check, Opts, Tier};
 use std::path::PathBuf;
 
 fn registry() -> Vec<Box<dyn Check>> {
-    vec![Box::new(c08::C08), Box::new(c13::C13), Box::new(c16::C16)]
+    vec![Box::new(c08::C08), Box::new(c13::C13), Box::new(c16::C16), Box::new(c18::C18)]
 }
 
 thread_local! {
@@ -74,6 +75,14 @@ fn main() {
             "--replay" => o.replay = Some(PathBuf::from(next())),
             "--index" => o.only_index = next().parse().ok(),
             "--cases" => o.cases_override = next().parse().ok(),
+            "--aux" => {
+                let spec = next();
+                let code = match o.id.to_ascii_uppercase().as_str() {
+                    "C18" => c18::aux_main(&spec),
+                    _ => 2,
+                };
+                std::process::exit(code);
+            }
             "-v" | "--verbose" => o.verbose = true,
             other => {
                 eprintln!("unknown argument {other}");
